@@ -111,6 +111,7 @@ func buildProperties() []Property {
 			Decides:    "every narrowing conversion of an answer value in Scan is guarded by an exactness/range test with an error edge (sizes from the analysed build, thorough tier repeats with 32-bit int); placeholder arguments never flow into a reader, lexer or parser constructor (they enter the grammar only as finished terms); a term is returned only when the argument queue is empty and the queue is indexed only when non-empty. The destination of each element conversion into a slice is computed per element inside the loop. An unsigned 64-bit Go integer is converted to Integer only under a bound; left-over placeholder arguments are reported by Term outside text mode and by the loader at the end of a text; reflect.Value.Interface is applied to struct fields only when they are exported.",
 			NotDecided: "that termOf(v) equals the literal denoting v under every double_quotes setting.",
 			Rules: []RuleDef{
+				{"R-FLOAT-FINITE", 2, ruleFloatFinite},
 				{"R-PLACEHOLDER-FLAG", 1, rulePlaceholderFlag},
 				{"R-SCAN-OVERWRITES", 8, ruleScanOverwrites},
 				{"R-REFLECT-EXPORTED", 2, ruleReflectExported},
@@ -265,6 +266,7 @@ func buildProperties() []Property {
 			Decides:    "a failed unification leaves no binding (environments are persistent: every Env store targets a node private to the writer); unify_with_occurs_check applies the check at every depth and before every bind; atomic terms are compared with a total non-panicking equality; every slice/string encoding of a list reports './2 through the Compound interface. The occurs check recurses into the referent of a bound variable and into every argument; the dynamic type of a term is inspected only after resolution; functor-name comparisons are paired with arity. unify never re-enters itself through a wrapper that fixes the occurs-check flag; the tail of a partial list replaces only the cdr; every one-character name, U+FFFD included, has the rune as its only representation.",
 			NotDecided: "most-generality, symmetry, idempotence, and that Arg(n) of the four list encodings denotes the same abstract argument (algebraic laws over all term pairs).",
 			Rules: []RuleDef{
+				{"R-FLOAT-FINITE", 2, ruleFloatFinite},
 				{"R-PARTIAL-SPINE", 1, rulePartialSpine},
 				{"R-UNIFY-ABSTRACT", 1, ruleUnifyAbstract},
 				{"R-ATOM-CANONICAL", 1, ruleAtomCanonical},
